@@ -5076,7 +5076,13 @@ _trait_setstate(trait_object *trait, PyObject *args)
     Py_INCREF(trait->delegate_name);
     Py_INCREF(trait->delegate_prefix);
     Py_INCREF(trait->handler);
-    Py_INCREF(trait->obj_dict);
+    if (trait->obj_dict == Py_None) {
+        /* The pickled trait never had an instance dictionary. */
+        trait->obj_dict = NULL;
+    }
+    else {
+        Py_INCREF(trait->obj_dict);
+    }
 
     Py_INCREF(Py_None);
     return Py_None;
